@@ -16,8 +16,9 @@ and of the format documentation (doc/source/mulformat.rst, mulgrids.rst):
   block exists       column surface above the layer bottom
   top block          highest layer whose bottom is below the surface; its top is the column surface
                      (also when the surface is above the top layer), every other block ends at the layer top
-  block centre       (column centre, layer centre), or midway between layer bottom and surface for a top
-                     block whose surface is not above the layer top (documented in block_centre)
+  block centre       (column centre, layer centre as recorded), or midway between layer bottom and surface for a
+                     top block whose surface is lower than the layer top (documented in block_centre); a block
+                     whose column surface is exactly at the layer top is a full block and has the layer centre
   shared edge        the two nodes common to both columns (adjacent in both node rings)
 """
 from fractions import Fraction as F
@@ -172,6 +173,9 @@ class Static(object):
             if not self.bottom[k] < self.top[k]:
                 raise RefError('layers not descending')
         self.lname = [l[0] for l in lays]
+        # layers whose recorded centre is not their mid-point (to within round-off of forming the mid-point)
+        self.offmid = [False] + [abs(self.lcentre[k] - (self.top[k] + self.bottom[k]) / 2) >
+                                 (self.top[k] - self.bottom[k]) / 10 ** 9 for k in range(1, len(lays))]
         self.fcentre = [(float(c[0]), float(c[1])) for c in self.centre]
         self.farea = [float(a) for a in self.area]
 
@@ -227,8 +231,10 @@ def expected(st, surfaces, atmosphere_type, atmosphere_connection, permeability_
                     kind = 'top-above'
                     z = st.lcentre[k]
                 elif surf[i] == st.top[k]:
+                    # documented rule (block_centre): the layer centre, except for surface blocks with the
+                    # column surface LOWER than the layer top - a surface exactly at the top is a full block
                     kind = 'top-at'
-                    z = (st.bottom[k] + surf[i]) / 2
+                    z = st.lcentre[k]
                 else:
                     kind = 'top-below'
                     z = (st.bottom[k] + surf[i]) / 2
@@ -280,5 +286,7 @@ def expected(st, surfaces, atmosphere_type, atmosphere_connection, permeability_
                           'area': hc['length'] * float(h), 'dist': (hc['dist'][0], hc['dist'][1]),
                           'dsum': None, 'cos': cosv, 'dz': float(dz),
                           'dirs': direction_set(hc['dx'], hc['dy'], permeability_angle),
-                          'cls': 'equal-elevation' if dz == 0 else 'beside-truncated'})
+                          'cls': ('equal-elevation' if dz == 0 else 'beside-truncated') +
+                                 ('+surface-at-layer-top' if st.offmid[k] and 'top-at' in
+                                  (blocks[bindex[(k, a)]]['kind'], blocks[bindex[(k, b)]]['kind']) else '')})
     return blocks, conns, rockvol
